@@ -60,7 +60,7 @@ def _emit(g, entry, text):
         g.emergency_halt(text)
 
 
-def run_entry(style, entry, text, eol="\n", pre_style=None):
+def run_entry(style, entry, text, eol="\n", pre_style=None, bad_reconf=False):
     """pre_style: the builder lived under another comment style first and wrote the same text there; the style was then
     changed with g.format.set_comment_symbols() -- only what is written AFTER the change is returned (and judged under `style`)."""
     from gscrib import GCodeBuilder
@@ -81,6 +81,15 @@ def run_entry(style, entry, text, eol="\n", pre_style=None):
             g.move(x=0.5)
         g.format.set_comment_symbols(style)
         rw.take()
+    if bad_reconf:
+        # a reconfiguration the formatter refuses must leave the style in force untouched (added after seed C09f: a refused
+        # set_comment_symbols() had already replaced the closer filter)
+        for sym in ("{", "", "{}"):
+            try:
+                g.format.set_comment_symbols(sym)
+                g.format.set_comment_symbols(style)      # accepted after all: put the style under test back
+            except Exception:
+                pass
     res = "ok"
     try:
         g.move(x=1.0, y=2.0)
@@ -104,9 +113,9 @@ def run_entry(style, entry, text, eol="\n", pre_style=None):
     return b"".join(rw.take()), res
 
 
-def case(style, entry, text, eol="\n", pre_style=None):
-    out, res = run_entry(style, entry, text, eol, pre_style)
-    ref, refres = run_entry(style, entry, "x", eol, pre_style)
+def case(style, entry, text, eol="\n", pre_style=None, bad_reconf=False):
+    out, res = run_entry(style, entry, text, eol, pre_style, bad_reconf)
+    ref, refres = run_entry(style, entry, "x", eol, pre_style, bad_reconf)
     return {"out": list(out), "ref": list(ref), "res": res, "refres": refres, "entry": entry,
             "text": list(text.encode("utf-8", "replace"))}
 
@@ -165,6 +174,8 @@ class P(flow.Plan):
                 # the comment style is changed on a living builder that has already written the same text under another
                 # style (added after seed C09d: a memoised sanitiser that survived set_comment_symbols())
                 if entry in ("comment", "move", "annotate", "emergency_halt"):
+                    for p in [t1 + t2 for t1 in toks for t2 in toks][::5] + [(c or "\n") + " M112 " + o]:
+                        ev.append(case(style, entry, p, "\n", None, True))
                     for pre in rng.sample([st for st in STYLES if st != style], 2):
                         for p in [t1 + t2 for t1 in toks for t2 in toks][::4] + [(c or "\n") + " M112 " + o, "a" + (c or ";") + "M3 S1"]:
                             ev.append(case(style, entry, p, "\n", pre))
